@@ -7,6 +7,7 @@ operations are pre-emption points handing the baton back to a scheduler.  Which 
 point is dictated by the case (a tape of small ints), so every history is a pure function of the case.
 """
 import itertools
+import os
 import threading
 from fractions import Fraction
 
@@ -54,24 +55,35 @@ class _Killed(BaseException):
     pass
 
 
+try:
+    import greenlet as _greenlet
+except ImportError:          # stdlib fallback: baton-passing OS threads
+    _greenlet = None
+if os.environ.get("VERIF_C31_BACKEND") == "threads":
+    _greenlet = None
+
+
 class _VT(object):
     def __init__(self, idx):
         self.idx = idx
-        self.sem = threading.Semaphore(0)
         self.done = False
         self.blocked_on = None
         self.error = None
+        self.sem = None
         self.thread = None
+        self.gl = None
 
 
 class _World(object):
-    """Baton-passing scheduler.  run() executes in the calling (main) thread."""
+    """Scheduler of virtual threads: exactly one runs at a time and only hands control back at a
+    pre-emption point, when it blocks or when it finishes.  Backed by greenlets when available (no OS
+    scheduling latency) and by baton-passing OS threads otherwise; both give the same histories.
+    run() executes in the caller."""
 
     def __init__(self, tape, points, max_steps=4000):
         self.tape = list(tape)
         self.pos = 0
         self.points = frozenset(points)
-        self.main = threading.Semaphore(0)
         self.vts = []
         self.current = None
         self.killed = False
@@ -80,12 +92,18 @@ class _World(object):
         self.max_steps = max_steps
         self.events = 0          # global event counter (invocations / returns)
         self.status = "ok"
+        self.use_gl = _greenlet is not None
+        if self.use_gl:
+            self.main_gl = _greenlet.getcurrent()
+        else:
+            self.main = threading.Semaphore(0)
 
     def spawn(self, body):
         vt = _VT(len(self.vts))
 
         def runner():
-            vt.sem.acquire()
+            if not self.use_gl:
+                vt.sem.acquire()
             try:
                 if not self.killed:
                     body(vt)
@@ -95,11 +113,16 @@ class _World(object):
                 vt.error = e
             finally:
                 vt.done = True
-                self.main.release()
+                if not self.use_gl:
+                    self.main.release()
 
-        vt.thread = threading.Thread(target=runner, name="vt%d" % vt.idx)
-        vt.thread.daemon = True
-        vt.thread.start()
+        if self.use_gl:
+            vt.gl = _greenlet.greenlet(runner, parent=self.main_gl)
+        else:
+            vt.sem = threading.Semaphore(0)
+            vt.thread = threading.Thread(target=runner, name="vt%d" % vt.idx)
+            vt.thread.daemon = True
+            vt.thread.start()
         self.vts.append(vt)
         return vt
 
@@ -107,19 +130,37 @@ class _World(object):
         self.events += 1
         return self.events
 
+    def inside(self, vt):
+        if vt is None:
+            return False
+        if self.use_gl:
+            return _greenlet.getcurrent() is vt.gl
+        return threading.current_thread() is vt.thread
+
     # --- called from virtual threads
     def point(self, kind):
         vt = self.current
-        if vt is None or threading.current_thread() is not vt.thread:
+        if not self.inside(vt):
             return
         if self.killed:
             raise _Killed()
         if kind not in self.points and vt.blocked_on is None:
             return
-        self.main.release()
-        vt.sem.acquire()
+        if self.use_gl:
+            self.main_gl.switch()
+        else:
+            self.main.release()
+            vt.sem.acquire()
         if self.killed:
             raise _Killed()
+
+    def _resume(self, vt):
+        self.current = vt
+        if self.use_gl:
+            vt.gl.switch()
+        else:
+            vt.sem.release()
+            self.main.acquire()
 
     # --- scheduler loop
     def run(self):
@@ -144,23 +185,21 @@ class _World(object):
                 self.trace.append((c, len(runnable)))
             else:
                 c = 0
-            nxt = runnable[c]
-            self.current = nxt
-            nxt.sem.release()
-            self.main.acquire()
+            self._resume(runnable[c])
         stuck = [t for t in self.vts if not t.done]
         if stuck and self.status == "ok":
             self.status = "deadlock"
         # unwind whatever is still parked
         self.killed = True
         for t in stuck:
-            self.current = t
-            t.sem.release()
-            self.main.acquire()
-        for t in self.vts:
-            t.thread.join(5)
-            if t.thread.is_alive():
-                raise HarnessError("virtual thread did not finish")
+            self._resume(t)
+            if not t.done:
+                raise HarnessError("virtual thread did not unwind")
+        if not self.use_gl:
+            for t in self.vts:
+                t.thread.join(5)
+                if t.thread.is_alive():
+                    raise HarnessError("virtual thread did not finish")
         self.current = None
 
 
@@ -172,7 +211,7 @@ class _VLock(object):
     def acquire(self, blocking=True, timeout=-1):
         w = self.world
         vt = w.current
-        if vt is None or threading.current_thread() is not vt.thread:
+        if not w.inside(vt):
             self.holder = "main"
             return True
         w.point("acquire")
